@@ -2,7 +2,7 @@
 independent reading of the same data.
 
  dump     every subset of the 7 pixel options (--fill-lower, -b, --join, --annotate,
-          --one-based-ids, --one-based-starts, -c) x 3 region choices (none, -r, -r + -r2)
+          --one-based-ids, --one-based-starts, -c) x region choices (none, -r, -r + -r2 above / below / staggered across the diagonal both ways)
           on coolers of the C01 scope (bin-table shapes x matrices x storage modes); the text
           is parsed back and compared, column group by column group, with a model computed
           from the dense matrix and the bin table in plain python (each option must have its
@@ -189,6 +189,9 @@ def region_choices(rows, rng=None):
         out.append(dict(r=f"{c0}:{s:,}-{e:,}", r2=cl, rows=(c0, s, e), cols=whole))
         out.append(dict(r=cl, r2=f"{c0}:{s}-{e}", rows=whole, cols=(c0, s, e)))
         out.append(dict(r=f"{c0}:{s}-", r2=f"{c0}:0-{e}", rows=(c0, s, L0), cols=(c0, 0, e)))
+        # the mirror image: rows start BEFORE the columns and end inside them (staggered, overlapping: the part of the box
+        # below the diagonal is non-empty although the box "leans" above it)
+        out.append(dict(r=f"{c0}:0-{e}", r2=f"{c0}:{s}-", rows=(c0, 0, e), cols=(c0, s, L0)))
     else:
         s2 = b0[-2][1] if len(b0) >= 2 else 0
         out.append(dict(r=f"{c0}:0-{e}", r2=f"{c0}:{s2}-", rows=(c0, 0, e), cols=(c0, s2, L0)))
@@ -1219,7 +1222,7 @@ def main():
 
     nd = sum(len(s["runs"]) + len(s["chunked"]) for s in dump_specs)
     B.bound = (f"dump: coolers drawn from {'8' if T else '5 small'} bin-table shapes x 5 matrices x symmetric/square: {len(full)} coolers x all 128 subsets of the 7 options" + ("" if T else " and 1 square cooler x the subsets of size <=2 and the full set") + " x "
-               f"{'7' if T else '5'} region choices (none, -r, -r + -r2 above / below / across the diagonal{', 2 seeded random' if T else ''}); {len(red)} more coolers x the "
+               f"{'8' if T else '6'} region choices (none, -r, -r + -r2 above / below / staggered across the diagonal both ways{', 2 seeded random' if T else ''}); {len(red)} more coolers x the "
                f"subsets of size <=2 and the full set{'' if T else ' x 4 region choices'}; -k in {{1,2,3}} on 3 subsets; on {'all' if T else '4'} coolers "
                f"{{join, balanced, annotate, all three}} x with/without --fill-lower x 4 region boxes x -k in {{1,2}}; {nd} distinct command lines" + (f"; + {n_random} random matrices x 24 random subsets" if T else "") + ". "
                f"load: COO every permutation of 3 fields in 3 columns, {'every placement in 4 and 5' if T else 'every second placement in 4'} columns and {'all' if T else 'every third'} of 4 fields (with a supplementary value field) in 4{' and 5' if T else ''} columns; "
